@@ -173,7 +173,7 @@ def go(shape, max_retries, r1, r2, r3, l1, l2, direct, flags=0):
 F = r'''
 def prog_s__S___m__M__(r1: int, r2: int, r3: int, l1: int, l2: int, direct: int, flags: int) -> bool:
     """
-    pre: 0 <= r1 <= 2 and 0 <= r2 <= 2 and 0 <= r3 <= 2 and 0 <= l1 <= __LMAX__ and 0 <= l2 <= __LMAX__ and 0 <= direct <= 1
+    pre: 0 <= r1 <= 2 and 0 <= r2 <= 2 and __R3PRE__ and 0 <= l1 <= __LMAX__ and 0 <= l2 <= __LMAX__ and 0 <= direct <= 1
     pre: 0 <= flags <= __FMAX__
     post: _
     """
@@ -210,11 +210,12 @@ def _key_from_replay(args, kwargs, replay_out):
 
 
 def run(ctx: Ctx) -> None:
+    thorough = ctx.tier == "thorough"
     src = SRC
     conds = []
     for s in range(3):
         for m in range(4):
-            f = F.replace("__S__", str(s)).replace("__M__", str(m)).replace("__LMAX__", "0" if s == 0 else "2").replace("__FMAX__", "3" if s <= 1 else "1")
+            f = F.replace("__S__", str(s)).replace("__M__", str(m)).replace("__LMAX__", "0" if s == 0 else "2").replace("__FMAX__", "3" if s <= 1 else "1").replace("__R3PRE__", "0 <= r3 <= 2" if thorough else "r3 == 0")
             src += f
             conds.append(Cond(f"prog_s{s}_m{m}", "confirm", 1500, keyfn=_key_from_replay))
     src += EXTRA
@@ -223,7 +224,7 @@ def run(ctx: Ctx) -> None:
     ctx.functions_encoded += ["Task._call (mode switch), Task.parallelize/distribute_calls", "ConcurrentInvocation.result / ConcurrentInvocationGroup.results",
                               "DistributedInvocation.run/result, DistributedInvocationGroup.results", "BaseOrchestrator.set_invocation_retry/get_invocations_to_run/route_call",
                               "Pynenc.direct_task wrapper"]
-    ctx.bounds = {"programs": "root script of 3 attempts over {return, raise retriable, raise non-retriable}; max_retries 0..3; child shape none / single / parallelized group of 2 "
+    ctx.bounds = {"programs": "root script of 2 attempts quick / 3 thorough over {return, raise retriable, raise non-retriable}; max_retries 0..3; child shape none / single / parallelized group of 2 "
                               "with a 2-attempt child script (child max_retries 1); plain or direct-task root; bodies returning values or None; results read once or twice",
                   "modes": "sync (dev_mode_force_sync_tasks), distributed on the in-memory stack, distributed on the SQLite stack"}
     ctx.stubs += ["InlineRunner: single-thread stand-in for the runner; its worker step = the persistent-process worker loop body (get_invocations_to_run(1) then invocation.run); "
